@@ -62,9 +62,14 @@ func (p *pp) Print(args ...interface{}) {
 	defer p.buf.SetMode(p.buf.GetMode())
 	np := newPrinter()
 	np.buf = p.buf
+	if p.override == overrideUnsafe {
+		// The outermost Unsafe() wins, also in a nested printer.
+		np.override = overrideUnsafe
+	}
 	np.doPrint(args)
 	p.buf = np.buf
 	np.buf = buffer{}
+	np.override = noOverride
 	np.free()
 }
 
@@ -72,9 +77,14 @@ func (p *pp) Printf(format string, arg ...interface{}) {
 	defer p.buf.SetMode(p.buf.GetMode())
 	np := newPrinter()
 	np.buf = p.buf
+	if p.override == overrideUnsafe {
+		// The outermost Unsafe() wins, also in a nested printer.
+		np.override = overrideUnsafe
+	}
 	np.doPrintf(format, arg)
 	p.buf = np.buf
 	np.buf = buffer{}
+	np.override = noOverride
 	np.free()
 }
 
